@@ -260,6 +260,46 @@ def verus_shape_guards(plan):
     plan.dropped.append("(F) shape guards: the two `match (rows, cols, v_rows, v_cols) { .. }` blocks of impl_binop_match_arms! are copied verbatim, with the DimensionMismatch error construction rewritten to `return Err(())`; that the arm goes on to pick the kernel by the vector's storage type is not covered")
 
 
+def out_alloc_pass(plan):
+    """Anchor pass (syntactic): every dynamic-storage arm of impl_binop_match_arms! / impl_urnop_match_arms! allocates its
+    output from the operand the kernel iterates over: DMatrix::from_element(rows, cols, ..) in that order with (rows, cols)
+    bound from a `.shape()` in the same arm; vector outputs from `<operand>.borrow().len()` of an operand of the same struct."""
+    import vlib, re
+    text = vlib.read_repo("src/core/src/stdlib.rs")
+    for macro in ("impl_binop_match_arms", "impl_urnop_match_arms"):
+        try:
+            mt = vlib.extract_macro(text, macro)
+        except vlib.AnchorLost as e:
+            plan.anchor_errors.append(("C01.dispatch.out_alloc." + macro, str(e)))
+            continue
+        seen = {}
+        for m in re.finditer(r"Box::new\(\[<\$lib (\w+)>\]\s*\{([^}]*?out:\s*Ref::new\((DMatrix|RowDVector|DVector)::from_element\(([^)]*?\)?[^)]*?)\)\)[^}]*)\}", mt):
+            struct, fields, kind, args = m.group(1), m.group(2), m.group(3), m.group(4)
+            ok, why = True, ""
+            a = [x.strip() for x in args.split(",")]
+            if kind == "DMatrix":
+                if a[:2] != ["rows", "cols"]:
+                    ok, why = False, "DMatrix::from_element(%s, %s, ..) — expected (rows, cols, ..)" % (a[0], a[1] if len(a) > 1 else "?")
+                else:
+                    pre = mt[:m.start()]
+                    b = pre.rfind("let (rows,cols)")
+                    if b < 0 or ".shape()" not in pre[b:b + 80]:
+                        ok, why = False, "(rows, cols) is not bound from an operand's shape() in this arm"
+            else:
+                mm = re.match(r"(\w+)\.borrow\(\)\.len\(\)", a[0])
+                if not mm or not re.search(r"\b%s\b" % mm.group(1), fields.split("out:")[0]):
+                    ok, why = False, "%s::from_element(%s, ..) is not sized from an operand of the struct" % (kind, a[0])
+            n = seen.get(struct, 0) + 1
+            seen[struct] = n
+            name = "C01.dispatch.out_alloc.%s%s" % (struct, "" if n == 1 else "#%d" % n)
+            ob = plan.ob(name, "syntactic", "bounded", bound="source-text pass over the dispatch arm (not a proof)", functions=["%s! arm of %s" % (macro, struct)],
+                         what="the output of the %s arm is allocated with the shape of the operand its kernel iterates over" % struct)
+            if ok:
+                ob.status = "discharged"
+            else:
+                ob.status, ob.detail, ob.raw = "violated", why, "%s! arm %s: %s" % (macro, struct, why)
+
+
 def modname(op, prop="C01"):
     return "verif_%s_%s" % (prop.lower(), op)
 
@@ -401,6 +441,10 @@ def plan(plan, tier, seed, prop="C01", selector=None, twice=None):
             verus_shape_guards(plan)
         except Exception as e:
             plan.anchor_errors.append(("C01.dispatch.guards", str(e)))
+        try:
+            out_alloc_pass(plan)
+        except Exception as e:
+            plan.anchor_errors.append(("C01.dispatch.out_alloc", repr(e)))
         from units import fallback
         fallback.unit(plan, "C01", [("impl_mech_binop_fxn", "src/core/src/stdlib.rs", r"macro_rules!\s*impl_mech_binop_fxn", r"\$gen_fxn")])
     plan.trusted += ["Verus 0.2026.09.13 / Z3 (scalar kernels, K)", "Kani 0.68 MIR->goto translation and CBMC 6.11 (bit-precise, incl. IEEE-754)", "nalgebra 0.34 is executed, not modelled",
